@@ -259,7 +259,7 @@ class C08(Check):
             old_ref = digest_records(cats.create(rec / "old", world.old, centers=world.cobj()))
             state = tmp / "state"
 
-            def launch(over_old):
+            def launch(over_old, die_at_chunk=None):
                 shutil.rmtree(state, ignore_errors=True)
                 state.mkdir()
                 if over_old:
@@ -272,6 +272,22 @@ class C08(Check):
                         os.dup2(devnull, 1)
                         os.dup2(devnull, 2)
                         os.environ["YAW_NUM_THREADS"] = "3"
+                        if die_at_chunk is not None:
+                            # the main process is killed (nothing else) when it asks for its k-th chunk, after the
+                            # earlier chunks had time to travel through the workers to the writer process
+                            from yaw.catalog import readers
+
+                            orig_next = readers.DataChunkReader.__next__
+                            calls = [0]
+
+                            def dying_next(self_):
+                                calls[0] += 1
+                                if calls[0] > die_at_chunk:
+                                    time.sleep(0.4)
+                                    os.kill(os.getpid(), signal.SIGKILL)
+                                return orig_next(self_)
+
+                            readers.DataChunkReader.__next__ = dying_next
                         cats.create(state / "ref", world.new, centers=world.cobj(), chunksize=40, overwrite=over_old, max_workers=3)
                     finally:
                         os._exit(0)
@@ -284,16 +300,14 @@ class C08(Check):
             duration = time.time() - t0
             for i in range(case["samples"]):
                 over_old = bool(i % 2)
-                pid = launch(over_old)
-                time.sleep(float(rng.uniform(0.0, duration * 1.05)))
-                if i % 4 == 3:
+                main_only = i % 4 == 3
+                pid = launch(over_old, die_at_chunk=(1 + (i // 4) % 2) if main_only else None)
+                if not main_only:
+                    time.sleep(float(rng.uniform(0.0, duration * 1.05)))
+                if main_only:
                     # only the main process dies (OOM killer, kill -9 <pid>): its helper processes live on for a
                     # while and may still write; they get a few seconds, then the rest of the group is removed
-                    try:
-                        os.kill(pid, signal.SIGKILL)
-                    except ProcessLookupError:
-                        pass
-                    os.waitpid(pid, 0)
+                    os.waitpid(pid, 0)  # it kills itself
                     time.sleep(3.5)
                     counters["main_only_kills"] = counters.get("main_only_kills", 0) + 1
                 try:
